@@ -165,12 +165,20 @@ fn all_areas(
     line_cfgs_resp: &[u8],
 ) {
     let none = Companions::None;
-    p.phases.push(phase(&format!("{tag}: S1 header trees D={dh} E={extra}"), Backend::Native, tree_tasks(header_trees(hdr_lanes, caps, 1, dh, extra, &none))));
+    if dh >= 8 && caps.len() > 1 {
+        // thorough tier: the deepest level only at the last (largest) capacity; the tree grows
+        // about 9x per level and a run has to complete inside its wall cap
+        let (last, rest) = caps.split_last().unwrap();
+        p.phases.push(phase(&format!("{tag}: S1 header trees D={} E={} at capacities {:?}", dh - 1, extra.min(1), rest), Backend::Native, tree_tasks(header_trees(hdr_lanes, rest, 1, dh - 1, extra.min(1), &none))));
+        p.phases.push(phase(&format!("{tag}: S1 header trees D={dh} E={extra} at capacity {last}"), Backend::Native, tree_tasks(header_trees(hdr_lanes, &[*last], 1, dh, extra, &none))));
+    } else {
+        p.phases.push(phase(&format!("{tag}: S1 header trees D={dh} E={extra}"), Backend::Native, tree_tasks(header_trees(hdr_lanes, caps, 1, dh, extra, &none))));
+    }
     p.phases.push(phase(&format!("{tag}: S1 request-line trees D={dl} E={extra}"), Backend::Native, tree_tasks(request_trees(line_cfgs_req, 2, 1, dl, extra, &none))));
     p.phases.push(phase(&format!("{tag}: S1 status-line trees D={dl} E={extra}"), Backend::Native, tree_tasks(status_trees(line_cfgs_resp, 2, 1, dl, extra, &none))));
     p.phases.push(phase(&format!("{tag}: S1 chunk-size trees D={dc} E={extra}"), Backend::Native, tree_tasks(chunk_trees(dc, extra))));
     p.bounds.push(format!(
-        "S1: header block Σ(11)^≤{dh} × {} lanes × capacities {:?} × 4 resume contexts; request line Σ(19)^≤{dl} × 17 contexts × {} configs; status line Σ(19)^≤{dl} × 15 contexts × {} configs; chunk size Σ(14)^≤{dc} × 5 contexts; terminal nodes extended by Σ^≤{extra}",
+        "S1: header block Σ(11)^≤{dh} (thorough tier: the last level only at the largest capacity) × {} lanes × capacities {:?} × 4 resume contexts and alternative start lines; request line Σ(19)^≤{dl} × 17 contexts × {} configs; status line Σ(19)^≤{dl} × 15 contexts × {} configs; chunk size Σ(14)^≤{dc} × 5 contexts; terminal nodes extended by Σ^≤{extra}",
         hdr_lanes.len(), caps, line_cfgs_req.len(), line_cfgs_resp.len()
     ));
 }
